@@ -266,8 +266,27 @@ def run_matrix(case, out, fail, sc, dump=False):
         if want_r and r2 != want_r:
             fail("dump of an environment loses an option: runner type", "%s: %s" % (label_of(case), r2))
         return
+    # a second backend from an equal configuration (its own directories where there are any), alive at the same time:
+    # like two back-ends made with equal constructor arguments, they do not share entries
+    twin = None
+    try:
+        twin, _ = build_cluster(case, sc.path("cfg twin"), sc.path("files twin"))
+    except Exception:
+        pass
     got = behaviour(storage, dirs, 0, audit)
     out["obs"]["vectors_compared"] += 1
+    if twin is not None and twin is not storage and got.get("memoized") is not None:
+        refs, vals = storeops.Refs("c"), storeops.values()
+        storeops.apply_backend(storage, refs, vals, ["memoize", 1, 1, "s1", None])
+        out["obs"]["twin_backends_checked"] += 1
+        seen = bool(twin.is_memoized(refs.refs[1], refs.ah[1][1])) or bool(twin.list_functions())
+        if seen:
+            fail("two back-ends built from equal configurations share their entries (two built with equal constructor arguments do not)",
+                 "%s: an entry written through one backend is reported by the other" % label_of(case))
+        storeops.apply_backend(storage, refs, vals, ["forget_call", 1, 1])
+    elif twin is storage and twin is not None and case["stype"] != "null":  # (a stateless null storage may well be shared)
+        fail("two back-ends built from equal configurations share their entries (two built with equal constructor arguments do not)",
+             "%s: the very same backend object is handed out twice" % label_of(case))
     for k, (w, g) in diff_vec(want, got).items():
         fail(SIG.get(k, k), "%s: behaviour %s is %s, the constructor-argument equivalent gives %s" % (label_of(case), k, g, w))
     if cluster is not None:
